@@ -28,7 +28,7 @@ type RunResult struct {
 
 func loadCorpus(prop string) []Case {
 	var out []Case
-	data, err := os.ReadFile("/verif/corpus/" + prop + ".txt")
+	data, err := os.ReadFile(verifRoot + "/corpus/" + prop + ".txt")
 	if err != nil {
 		return nil
 	}
